@@ -124,7 +124,10 @@ func runWorker(bin string, job *sim.Job, extraEnv ...string) ([]*sim.RunResult, 
 	jp := filepath.Join(dir, "job.json")
 	os.WriteFile(jp, jb, 0o644)
 	cmd := exec.Command(bin, "-test.run", "^TestWorker$", "-test.cpu", "1", "-test.timeout", "6h")
-	cmd.Env = append(os.Environ(), "VERIF_JOB="+jp)
+	// one P (-test.cpu 1) and no signal-based preemption: which goroutine of a
+	// library's own background tasks (the mux's read and write loops) runs next
+	// is then decided by where they block, not by the clock
+	cmd.Env = append(os.Environ(), "VERIF_JOB="+jp, "GODEBUG=asyncpreemptoff=1")
 	cmd.Env = append(cmd.Env, extraEnv...)
 	if strings.HasSuffix(bin, ".race.test") {
 		cmd.Env = append(cmd.Env, "GORACE=halt_on_error=0 log_path="+filepath.Join(dir, "race"), "VERIF_RACE_LOG="+filepath.Join(dir, "race"))
